@@ -771,14 +771,80 @@ func callNames(c *ssa.CallCommon) map[string]bool {
 	return names
 }
 
+// reachNames: the names of every function that may be called, transitively through static calls to functions of
+// this module (and the function literals they contain), below the call c. Dynamic calls are not followed.
+func (w *World) reachNames(c *ssa.CallCommon, from *ssa.Function) map[string]bool {
+	out := map[string]bool{}
+	f := c.StaticCallee()
+	if f == nil {
+		// a call of a function literal bound to a local: follow the literal
+		if mc, ok := c.Value.(*ssa.MakeClosure); ok {
+			f, _ = mc.Fn.(*ssa.Function)
+		}
+	}
+	if f == nil {
+		return out
+	}
+	seen := map[*ssa.Function]bool{}
+	var walk func(g *ssa.Function)
+	walk = func(g *ssa.Function) {
+		if g == nil || seen[g] || g.Blocks == nil {
+			return
+		}
+		pk := g.Pkg
+		if pk == nil && g.Parent() != nil {
+			pk = g.Parent().Pkg
+		}
+		if pk == nil || !strings.HasPrefix(pk.Pkg.Path(), ModulePath) {
+			return
+		}
+		seen[g] = true
+		for _, b := range g.Blocks {
+			for _, in := range b.Instrs {
+				if ci, ok := in.(ssa.CallInstruction); ok {
+					cc := ci.Common()
+					for n := range callNames(cc) {
+						out[n] = true
+					}
+					walk(cc.StaticCallee())
+				}
+				if mc, ok := in.(*ssa.MakeClosure); ok {
+					if lf, ok := mc.Fn.(*ssa.Function); ok {
+						walk(lf)
+					}
+				}
+			}
+		}
+	}
+	walk(f)
+	return out
+}
+
 // applyCallAsserts generates the obligations of "call NAME assert expr" clauses before a call to NAME.
 func (e *FnEnc) applyCallAsserts(c *ssa.CallCommon, in ssa.Instruction) {
 	if e.con == nil || len(e.con.CallAsserts) == 0 {
 		return
 	}
 	names := callNames(c)
+	var reach map[string]bool
 	for k, a := range e.con.CallAsserts {
-		if !names[a.Callee] || !clauseActive(a.Clause, e.prop) {
+		if !clauseActive(a.Clause, e.prop) {
+			continue
+		}
+		if !names[a.Callee] {
+			if !a.Reach {
+				continue
+			}
+			if reach == nil {
+				reach = e.W.reachNames(c, e.fn)
+			}
+			if !reach[a.Callee] {
+				continue
+			}
+			// the forbidden call happens somewhere below this call: the clause is evaluated here without a0..an
+			env := e.specEnv(e.cur, e.initState, nil)
+			env.site = e.curBlock
+			e.obligeClause(env, a.Clause, fmt.Sprintf("call.%s.reached.assert%d@%s", mangle(a.Callee), k+1, e.posOf(in)), "protocol", e.curGuard, e.posOf(in))
 			continue
 		}
 		env := e.specEnv(e.cur, e.initState, nil)
